@@ -293,6 +293,7 @@ func runBatch(b *build, prop, tier string, seed uint64, tc tierCfg, repo string)
 		go func(w int) {
 			defer wg.Done()
 			from := uint64(0)
+			hangs := 0
 			for attempt := 0; ; attempt++ {
 				args := []string{"-prop", prop, "-seed", strconv.FormatUint(seed, 10), "-tier", tier,
 					"-from", strconv.FormatUint(from, 10), "-to", strconv.FormatUint(tc.runs, 10),
@@ -313,6 +314,13 @@ func runBatch(b *build, prop, tier string, seed uint64, tc tierCfg, repo string)
 				stalled++
 				mu.Unlock()
 				from = lines[len(lines)-1].Index + 1
+				if lines[len(lines)-1].Status == "hang" {
+					// each hang costs seconds of real time; three reports from
+					// one worker slice are enough, the rest of the slice is skipped
+					if hangs++; hangs >= 3 {
+						return
+					}
+				}
 				if attempt > 50 {
 					mu.Lock()
 					if firstErr == nil {
@@ -365,7 +373,7 @@ func replayTape(b *build, rf *replayFile, tag string) (*resLine, error) {
 // reproduces reports whether line shows a violation of the wanted kind whose
 // key is one of want (for races: non-empty intersection of racing-pair sets).
 func reproduces(l *resLine, kind string, want map[string]bool) bool {
-	if l == nil || l.Status != "ok" {
+	if l == nil || (l.Status != "ok" && l.Status != "hang") {
 		return false
 	}
 	for _, v := range l.Violations {
@@ -659,11 +667,14 @@ func writeEvidence(prop, tier string, seed uint64, b *build, bt *batch, tc tierC
 		"workers":                 tc.workers,
 		"stalled_worker_restarts": bt.stalled,
 		"instrumentation": map[string]any{
-			"lock_yield_sites":  b.overlay.LockSites,
-			"sync_yield_sites":  b.overlay.SyncSites,
-			"blocking_op_sites": b.overlay.BlockSites,
-			"lru_size_sites":    b.overlay.SizeSites,
-			"files_rewritten":   b.overlay.Files,
+			"lock_yield_sites":   b.overlay.LockSites,
+			"sync_yield_sites":   b.overlay.SyncSites,
+			"blocking_op_sites":  b.overlay.BlockSites,
+			"lru_size_sites":     b.overlay.SizeSites,
+			"go_statement_sites": b.overlay.GoSites,
+			"select_sites":       b.overlay.SelectSites,
+			"once_do_sites":      b.overlay.OnceSites,
+			"files_rewritten":    b.overlay.Files,
 		},
 		"components":     componentsFor(prop),
 		"known_findings": knownHit,
